@@ -703,6 +703,14 @@ def canon_expr(node: ast.AST, env: Env) -> Term:
                     return env.lens[sa]
                 if sa[0] == 'alloc':
                     return sa[2]
+                # the prefix X[:hi] of a buffer of known allocated length: hi elements.  (Assumption, stated in DESIGN.md:
+                # a kernel never cuts a prefix longer than the buffer it filled - the bound is its event counter + 2, the
+                # buffer has one cell per spike + 2, and a store beyond it would have raised before the slice is taken.)
+                if sa[0] == 'sub' and isinstance(sa[2], tuple) and sa[2][:1] == ('slice',) and sa[2][3] is None \
+                        and (sa[2][1] is None or sa[2][1] == ZERO) and sa[2][2] is not None:
+                    base_ = sa[1]
+                    if base_ in env.lens or base_[0] == 'alloc':
+                        return to_poly(sa[2][2])
         if fn in ('np.empty', 'np.zeros', 'np.ones') and len(args) >= 1:
             return atom(('alloc', fn[3:], args[0]) + ((kws,) if kws else ()))
         if fn in ('np.empty_like', 'np.zeros_like', 'np.ones_like') and len(args) == 1:
